@@ -80,6 +80,16 @@ func (w *World) AddInstance(id peer.ID, store *Store, opts ...gsimpl.Option) *In
 	return in
 }
 
+// AddInstanceLS is AddInstance with a caller-built link system over the store.
+func (w *World) AddInstanceLS(id peer.ID, store *Store, lsys ipld.LinkSystem, opts ...gsimpl.Option) *Inst {
+	end := w.Net.AddEndpoint(id)
+	ctx, cancel := context.WithCancel(w.Ctx)
+	gs := gsimpl.New(ctx, end, lsys, opts...)
+	in := &Inst{ID: id, GS: gs, Impl: gs.(*gsimpl.GraphSync), Store: store, End: end, cancel: cancel}
+	w.Insts[id] = in
+	return in
+}
+
 // AddScripted adds a peer with no receiver: messages to it are recorded in End.Received.
 func (w *World) AddScripted(id peer.ID) *Endpoint { return w.Net.AddEndpoint(id) }
 
